@@ -195,7 +195,7 @@ impl Property for C03 {
         vec!["behaviour runs of domain-B programs are skipped (counted) when an `array` instruction could meet an integer constant > 5000 (sandbox memory)".into()]
     }
     fn random_cases(&self, tier: Tier) -> u64 {
-        tier.pick(80_000, 4_000_000)
+        tier.pick(240_000, 6_000_000)
     }
     fn max_tape(&self) -> usize {
         900
